@@ -6,10 +6,28 @@ from __future__ import annotations
 import math
 
 SPLITTER_VALUES = [
-    "u1", "user-42", "", "0", "1", "é", "josé", "日本語", "\U0001f600", "a b", "it's", 'q"q', "\\", "\x00",
+    "u1", "user-42", " padded ", "user-0 ", "\tx", "x\n", "", "0", "1", "é", "josé", "日本語", "\U0001f600", "a b", "it's", 'q"q', "\\", "\x00",
     0, 1, -1, 42, 2**31, 2**63, 10**30, -(10**20), 1.0, 0.5, -0.0, 1e22, 1e-7, float("inf"), float("nan"),
     True, False, None,
 ]
+
+
+def _exotic_numbers(v):
+    """the same neighbourhood in number types a caller may well pass: Decimal and Fraction compare exactly with ints and
+    floats in Python, so the reference semantics are defined for them"""
+    from decimal import Decimal
+    from fractions import Fraction
+
+    out = []
+    try:
+        if isinstance(v, int) and not isinstance(v, bool) and abs(v) < 10**30:
+            out += [Decimal(v), Decimal(v) + Decimal("0.00000000000000000001"), Decimal(v) - Decimal("1E-25"), Fraction(v),
+                    Fraction(v) + Fraction(1, 10**20), Fraction(2 * v - 1, 2)]
+        elif isinstance(v, float) and math.isfinite(v):
+            out += [Decimal(v), Decimal(v) + Decimal("1E-30"), Fraction(v), Fraction(v) - Fraction(1, 10**30), Decimal(repr(v))]
+    except Exception:  # noqa: BLE001
+        pass
+    return out
 
 
 def _num_neighbours(v):
@@ -56,6 +74,8 @@ def candidates(kind, lits, rnd):
         for v in lits:
             if isinstance(v, (int, float)) and not isinstance(v, bool):
                 c += _num_neighbours(v)
+                if rnd.random() < 0.35:
+                    c += _exotic_numbers(v)
             elif isinstance(v, str):
                 c += _lookalike_num(v)
         if rnd.random() < 0.03:
